@@ -189,6 +189,16 @@ func runHistory(h History) (rep Report) {
 				continue
 			}
 			seenMod[m] = true
+			phase = "identities of " + k
+			for _, id := range m.Identities() {
+				_ = id.PrefixedName()
+				for _, v := range id.Values {
+					if v != nil {
+						_ = v.Name
+						_ = v.PrefixedName()
+					}
+				}
+			}
 			phase = "ToEntry " + k
 			e := yang.ToEntry(m)
 			rep.Trees++
